@@ -74,6 +74,9 @@ func NewSolver(name string, timeoutMS int) (*Solver, error) {
 	if s.args == nil {
 		return nil, fmt.Errorf("unknown solver %q", name)
 	}
+	if name == "cvc5" {
+		s.args = append(s.args, fmt.Sprintf("--tlimit-per=%d", timeoutMS))
+	}
 	if err := s.start(); err != nil {
 		return nil, err
 	}
